@@ -386,6 +386,47 @@ pub fn flood_cases(st: &mut S16, codec: Codec, n: usize) {
     }
 }
 
+/// Duplicates of an in-flight request that state another deadline than the original - shorter,
+/// or decades away, or at the numeric limits - are ignored like any other duplicate (seeded change
+/// C16n re-armed the original's timer with the duplicate's uncapped deadline).
+pub fn duplicate_deadline_cases(st: &mut S16, codec: Codec) {
+    let held = request_msg(codec, 5, Duration::from_secs(10), "hold");
+    let deadlines: [(&str, Duration); 9] = [
+        ("0", Duration::ZERO),
+        ("1ns", Duration::from_nanos(1)),
+        ("1ms", Duration::from_millis(1)),
+        ("2y+1d", Duration::from_secs(731 * 86_400)),
+        ("3y", Duration::from_secs(3 * 365 * 86_400)),
+        ("30y", Duration::from_secs(30 * 365 * 86_400)),
+        ("u32::MAX s", Duration::from_secs(u32::MAX as u64)),
+        ("1e12 s", Duration::from_secs(1_000_000_000_000)),
+        ("u64::MAX s", Duration::new(u64::MAX, 999_999_999)),
+    ];
+    for (name, d) in deadlines {
+        for copies in 1..=2usize {
+            let dup = request_msg(codec, 5, d, "hold");
+            let mut input = held.clone();
+            for _ in 0..copies {
+                input.extend_from_slice(&dup);
+            }
+            input.extend_from_slice(&probe_frame(codec));
+            st.evals += 1;
+            st.distinct.insert(h(&(codec, "dup-deadline", name, copies)));
+            let label = format!("{codec:?} request 5 (10 s) in flight, then {copies} duplicates of it stating {name} left, then a probe");
+            let r = serve_held(codec, &input);
+            if let Some(p) = &r.panic {
+                failure(st, format!("C16-server-panic/{}", site(p)), format!("{label}: {p}"));
+            } else if r.stuck {
+                failure(st, "C16-server-stuck".into(), label);
+            } else if !r.probe_answered {
+                failure(st, "C16-server-stops-serving".into(), format!("{label}: the probe was never answered"));
+            } else if r.responses != 1 {
+                failure(st, "C16-server-flood-answered".into(), format!("{label}: {} responses, only the probe should be answered", r.responses));
+            }
+        }
+    }
+}
+
 /// like `c16::serve_bytes`, but requests whose payload starts with "hold" stay in flight
 pub fn serve_held(codec: Codec, input: &[u8]) -> ServeResult {
     let mut res = ServeResult::default();
